@@ -145,18 +145,20 @@ mod verif_udp {
         std::mem::forget(r);
     }
 
-    //@H name=c13_udp_buffered_ctor props=C05,C13,C14 bound="capacity 0..=64" fn=BufferedUdpMetricSink::with_capacity :: the buffered constructor builds the line writer with the given capacity, a single newline terminator, the resolved address, and shares its statistics with the adapter
+    //@H name=c13_udp_buffered_ctor props=C05,C13,C14,C19 bound="capacity 0..=64 or 1000000" fn=BufferedUdpMetricSink::with_capacity :: the buffered constructor builds the line writer with the given capacity, a single newline terminator, the resolved address, and shares its statistics with the adapter
     #[kani::proof]
     #[kani::unwind(40)]
     fn c13_udp_buffered_ctor() {
         let addr = any_addr();
-        let cap: usize = kani::any();
-        kani::assume(cap <= 64); // BufWriter::with_capacity allocates cap bytes
+        // BufWriter::with_capacity allocates cap bytes: small symbolic sizes, or one size beyond any datagram limit
+        let small: usize = kani::any();
+        kani::assume(small <= 64);
+        let cap: usize = if kani::any() { small } else { 1_000_000 };
         let r = BufferedUdpMetricSink::with_capacity(addr, fake_socket(), cap);
         match r {
             Ok(ref s) => {
                 let w = s.buffer.lock().unwrap();
-                assert!(w.verif_capacity() == cap, "[C05,C13] the configured capacity is the one used");
+                assert!(w.verif_capacity() == cap, "[C05,C13,C19] the configured capacity is the one used, whatever its size (the sink neither clamps nor replaces it)");
                 assert!(w.verif_ending().len() == 1 && w.verif_ending()[0] == b'\n', "[C13] the terminator is a single newline");
                 assert!(w.verif_written() == 0 && w.verif_buffered().is_empty(), "[C06] nothing is buffered initially");
                 assert!(w.verif_inner().addr == addr, "[C13] datagrams go to the address given at construction");
